@@ -1,0 +1,94 @@
+#ifndef CHESS_ENGINE_VERIF_HOOKS_H_
+#define CHESS_ENGINE_VERIF_HOOKS_H_
+
+/*
+ * Schedule / observation points for deterministic simulation.
+ *
+ * Everything in this file is inert unless the engine is compiled with
+ * -DCHESSPLUSPLUS_VERIF; in that case the callbacks below must be provided
+ * by the program the engine objects are linked into.
+ */
+
+#ifdef CHESSPLUSPLUS_VERIF
+
+extern "C"
+{
+    void verif_point(int id, const void* a, const void* b);
+    void verif_spawn(void);
+    void verif_thread_begin(void);
+    void verif_thread_end(void);
+}
+
+enum VerifPointId
+{
+    VERIF_PT_STOP_ENTRY = 1,
+    VERIF_PT_GO_ENTRY = 2,
+    VERIF_PT_GO_AFTER_INIT = 3,
+    VERIF_PT_GO_AFTER_RESET = 4,
+    VERIF_PT_GO_BEFORE_BESTMOVE = 5,
+    VERIF_PT_NODE = 6,
+    VERIF_PT_QNODE = 7,
+    VERIF_PT_AFTER_UNDO = 8,
+    VERIF_PT_IO_LOCK_BLOCKED = 9,
+    VERIF_PT_IO_LOCK_ACQUIRED = 10,
+    VERIF_PT_IO_LOCK_RELEASED = 11,
+    VERIF_PT_STOP_EXIT = 12,
+    VERIF_PT_ITER_DONE = 13,
+};
+
+struct VerifThreadScope
+{
+    VerifThreadScope() { verif_thread_begin(); }
+    ~VerifThreadScope() { verif_thread_end(); }
+};
+
+#define VERIF_POINT(id, a, b) verif_point((id), (a), (b))
+#define VERIF_SPAWN() verif_spawn()
+#define VERIF_THREAD_SCOPE() VerifThreadScope verif_thread_scope_
+
+/* make sure that the following m.lock() cannot block: under the simulator
+ * exactly one thread runs at a time, so a blocking lock would hang it */
+#define VERIF_IO_LOCK_WAIT(sc, m)                              \
+    do                                                         \
+    {                                                          \
+        if ((sc) == IO_LOCK)                                   \
+        {                                                      \
+            while (!(m).try_lock())                            \
+                verif_point(VERIF_PT_IO_LOCK_BLOCKED, &(m), 0); \
+            (m).unlock();                                      \
+        }                                                      \
+    } while (false)
+
+#define VERIF_IO_LOCK_DONE(sc, m)                                           \
+    do                                                                      \
+    {                                                                       \
+        if ((sc) == IO_LOCK) verif_point(VERIF_PT_IO_LOCK_ACQUIRED, &(m), 0); \
+        if ((sc) == IO_UNLOCK) verif_point(VERIF_PT_IO_LOCK_RELEASED, &(m), 0); \
+    } while (false)
+
+#else
+
+#define VERIF_POINT(id, a, b) \
+    do                        \
+    {                         \
+    } while (false)
+#define VERIF_SPAWN() \
+    do                \
+    {                 \
+    } while (false)
+#define VERIF_THREAD_SCOPE() \
+    do                       \
+    {                        \
+    } while (false)
+#define VERIF_IO_LOCK_WAIT(sc, m) \
+    do                            \
+    {                             \
+    } while (false)
+#define VERIF_IO_LOCK_DONE(sc, m) \
+    do                            \
+    {                             \
+    } while (false)
+
+#endif  // CHESSPLUSPLUS_VERIF
+
+#endif  // CHESS_ENGINE_VERIF_HOOKS_H_
